@@ -5,6 +5,7 @@ import (
 	"encoding/base64"
 	"encoding/json"
 	"fmt"
+	"regexp"
 	"sort"
 	"strings"
 	"time"
@@ -131,6 +132,10 @@ func tsBuild(id int, tc *tsCase) (*proto.Case, []int, []int) {
 			c.Steps = append(c.Steps, proto.Step{M: "fs.write", Path: name(op.U), Text: renderDoc(op.T)})
 			c.Steps = append(c.Steps, proto.Step{M: "textDocument/didSave", N: true,
 				P: json.RawMessage(fmt.Sprintf(`{"textDocument":{"uri":%s},"text":%s}`, jstr(uri(op.U)), jstr(renderDoc(op.T))))})
+		case "query":
+			for _, m := range []string{"textDocument/hover", "textDocument/definition", "textDocument/documentHighlight"} {
+				c.Steps = append(c.Steps, proto.Step{M: m, P: json.RawMessage(fmt.Sprintf(`{"textDocument":{"uri":%s},"position":{"line":0,"character":%d}}`, jstr(uri(op.U)), i%3))})
+			}
 		case "close":
 			c.Steps = append(c.Steps, proto.Step{M: "textDocument/didClose", N: true,
 				P: json.RawMessage(fmt.Sprintf(`{"textDocument":{"uri":%s}}`, jstr(uri(op.U))))})
@@ -152,6 +157,154 @@ func tsBuild(id int, tc *tsCase) (*proto.Case, []int, []int) {
 		c.Steps = append(c.Steps, proto.Step{M: "fs.delete", Path: name(u)})
 	}
 	return c, peekAt, firstPeek
+}
+
+// ---- the analysed view ----
+// The same histories, replayed at the level "which text does the analysis see": every abstract character (they carry
+// unique tags) is written as one line  g<tag> = o:m(<tag>)  , every operation that changes the text is sent as a full-text
+// didChange of the resulting document. After every operation on an open document the outline must list exactly the
+// g<tag> of the document the client holds; then position requests are made on the method name of a colon call, and the
+// server's copy must still be the client's text.
+
+func viewDoc(d []aChar) string {
+	var sb strings.Builder
+	for _, c := range d {
+		fmt.Fprintf(&sb, "g%d = o:m(%d)\n", c.T, c.T)
+	}
+	return sb.String()
+}
+
+type tsView struct {
+	tc    *tsCase
+	marks []tsViewMark
+}
+
+type tsViewMark struct {
+	op                int // -1: initial open of First[u]
+	u                 string
+	exp               []aChar
+	peek1, sym, peek2 int
+}
+
+func tsBuildView(id int, tc *tsCase) (*proto.Case, *tsView) {
+	c := &proto.Case{ID: id, Keep: true}
+	v := &tsView{tc: tc}
+	var uris []string
+	for u := range tc.First {
+		uris = append(uris, u)
+	}
+	sort.Strings(uris)
+	name := func(u string) string { return "v_" + u + ".lua" }
+	uri := func(u string) string { return "file://$ROOT/" + name(u) }
+	observe := func(op int, u string, exp []aChar) {
+		m := tsViewMark{op: op, u: u, exp: exp}
+		c.Steps = append(c.Steps, proto.Step{M: "peek", Path: name(u)})
+		m.peek1 = len(c.Steps) - 1
+		c.Steps = append(c.Steps, proto.Step{M: "textDocument/documentSymbol", P: json.RawMessage(fmt.Sprintf(`{"textDocument":{"uri":%s}}`, jstr(uri(u))))})
+		m.sym = len(c.Steps) - 1
+		if len(exp) > 0 {
+			col := len(fmt.Sprintf("g%d = o:", exp[0].T))
+			for _, q := range []string{"textDocument/hover", "textDocument/definition", "textDocument/documentHighlight", "textDocument/references"} {
+				p := fmt.Sprintf(`{"textDocument":{"uri":%s},"position":{"line":0,"character":%d}`, jstr(uri(u)), col)
+				if strings.HasSuffix(q, "references") {
+					p += `,"context":{"includeDeclaration":true}`
+				}
+				c.Steps = append(c.Steps, proto.Step{M: q, P: json.RawMessage(p + "}")})
+			}
+		}
+		c.Steps = append(c.Steps, proto.Step{M: "peek", Path: name(u)})
+		m.peek2 = len(c.Steps) - 1
+		v.marks = append(v.marks, m)
+	}
+	open := map[string]bool{}
+	disk := map[string][]aChar{}
+	for _, u := range uris {
+		disk[u] = tc.First[u]
+		txt := viewDoc(tc.First[u])
+		c.Steps = append(c.Steps, proto.Step{M: "fs.write", Path: name(u), Text: txt},
+			proto.Step{M: "textDocument/didOpen", N: true, P: json.RawMessage(fmt.Sprintf(`{"textDocument":{"uri":%s,"languageId":"lua","version":1,"text":%s}}`, jstr(uri(u)), jstr(txt)))})
+		open[u] = true
+		observe(-1, u, tc.First[u])
+	}
+	for i, op := range tc.Ops {
+		txt := viewDoc(op.Exp)
+		switch op.K {
+		case "change", "mixed", "full":
+			c.Steps = append(c.Steps, proto.Step{M: "textDocument/didChange", N: true,
+				P: json.RawMessage(fmt.Sprintf(`{"textDocument":{"uri":%s,"version":%d},"contentChanges":[{"text":%s}]}`, jstr(uri(op.U)), i+2, jstr(txt)))})
+		case "save":
+			c.Steps = append(c.Steps, proto.Step{M: "fs.write", Path: name(op.U), Text: txt},
+				proto.Step{M: "textDocument/didSave", N: true, P: json.RawMessage(fmt.Sprintf(`{"textDocument":{"uri":%s},"text":%s}`, jstr(uri(op.U)), jstr(txt)))})
+			disk[op.U] = op.Exp
+		case "close":
+			c.Steps = append(c.Steps, proto.Step{M: "textDocument/didClose", N: true, P: json.RawMessage(fmt.Sprintf(`{"textDocument":{"uri":%s}}`, jstr(uri(op.U))))})
+			open[op.U] = false
+			// (what the server answers about a closed document is C08's subject, not asked here)
+			continue
+		case "open":
+			c.Steps = append(c.Steps, proto.Step{M: "textDocument/didOpen", N: true,
+				P: json.RawMessage(fmt.Sprintf(`{"textDocument":{"uri":%s,"languageId":"lua","version":1,"text":%s}}`, jstr(uri(op.U)), jstr(txt)))})
+			open[op.U] = true
+		case "query":
+		}
+		observe(i, op.U, op.Exp)
+	}
+	for _, u := range uris {
+		if open[u] {
+			c.Steps = append(c.Steps, proto.Step{M: "textDocument/didClose", N: true, P: json.RawMessage(fmt.Sprintf(`{"textDocument":{"uri":%s}}`, jstr(uri(u))))})
+		}
+		c.Steps = append(c.Steps, proto.Step{M: "fs.delete", Path: name(u)})
+	}
+	return c, v
+}
+
+var reViewSym = regexp.MustCompile(`"name":"(g\d+)"`)
+
+func tsJudgeView(c *Ctx, raw json.RawMessage, v *tsView, r *proto.Result) {
+	c.Rep.Eval("view:" + string(raw))
+	if r.Crash != "" || r.Hang {
+		c.Rep.Violation(raw, fmt.Sprintf("server died or hung during text synchronisation, analysed view (crash=%q hang=%v at step %d)", r.Crash, r.Hang, r.AtStep))
+		return
+	}
+	for _, m := range v.marks {
+		want := viewDoc(m.exp)
+		where := fmt.Sprintf("op %d on %s", m.op, m.u)
+		if m.op < 0 {
+			where = "the initial didOpen of " + m.u
+		}
+		if m.peek1 < 0 {
+			where += " (closed: the saved text counts)"
+		} else if got, found := peekBytes(&r.Steps[m.peek1]); !found || string(got) != want {
+			c.Rep.Violation(raw, fmt.Sprintf("analysed view, after %s: server holds %q (found=%v), client holds %q", where, got, found, want))
+			return
+		}
+		names := map[string]bool{}
+		for _, x := range reViewSym.FindAllStringSubmatch(string(r.Steps[m.sym].Reply), -1) {
+			names[x[1]] = true
+		}
+		var miss, extra []string
+		for _, ch := range m.exp {
+			if !names[fmt.Sprintf("g%d", ch.T)] {
+				miss = append(miss, fmt.Sprintf("g%d", ch.T))
+			}
+			delete(names, fmt.Sprintf("g%d", ch.T))
+		}
+		for n := range names {
+			extra = append(extra, n)
+		}
+		sort.Strings(extra)
+		if len(miss)+len(extra) > 0 {
+			c.Rep.Violation(raw, fmt.Sprintf("analysed view, after %s: the outline lists the globals of another text than the client's %q: missing %v, not in the client's text %v (reply %s)", where, want, miss, extra, clip(string(r.Steps[m.sym].Reply)+string(r.Steps[m.sym].Err), 300)))
+			return
+		}
+		if m.peek2 < 0 {
+			continue
+		}
+		if got, found := peekBytes(&r.Steps[m.peek2]); !found || string(got) != want {
+			c.Rep.Violation(raw, fmt.Sprintf("analysed view, after %s and four position requests on the method name of the first line: server holds %q (found=%v), client holds %q", where, got, found, want))
+			return
+		}
+	}
 }
 
 func peekBytes(sr *proto.StepResult) ([]byte, bool) {
@@ -313,6 +466,20 @@ func checkC02(c *Ctx) {
 	if !run("histories_simulated", tlc.Run{Module: "TextSync", Workers: 1, Timeout: 40 * time.Minute,
 		Simulate: fmt.Sprintf("num=%d", num), Depth: depth + 1,
 		Cfg: tsCfg(`{"u1","u2"}`, allClasses, 2, 2, depth, 2, false, "NextSim", "Emit")}) {
+		return
+	}
+	// 5. the analysed view of further histories
+	type tsVData struct{ v *tsView }
+	if !c.streamRun("histories_analysed_view", tlc.Run{Module: "TextSync", Workers: 1, Timeout: 40 * time.Minute,
+		Simulate: fmt.Sprintf("num=%d", num), Depth: depth + 1, Seed: c.Seed + 1000,
+		Cfg: tsCfg(`{"u1","u2"}`, `{"a"}`, 3, 2, depth, 2, false, "NextSim", "Emit")}, p, 64, func(id int, raw json.RawMessage) *Job {
+		var tc tsCase
+		if json.Unmarshal(raw, &tc) != nil {
+			return nil
+		}
+		pc, v := tsBuildView(id, &tc)
+		return &Job{PC: pc, Data: &tsVData{v}}
+	}, func(j *Job, r *proto.Result) { tsJudgeView(c, j.Raw, j.Data.(*tsVData).v, r) }) {
 		return
 	}
 	c.Rep.Exhaustive = true
